@@ -220,7 +220,9 @@ def check_C07():
     ctx = Ctx("C07"); cov = {}
     broken = proof_part(ctx, "props/C07.v", ["proofs/C07_range.v", "proofs/C01_ops.v", "proofs/SpecExec_sound.v", "proofs/C11_table.v", "proofs/C11_lists.v",
                                              "proofs/X_basic.v", "proofs/X_inv.v", "proofs/X_c13.v", "proofs/X_own.v", "proofs/X_chain.v", "proofs/X_c04.v",
-                                             "proofs/X_lin.v", "proofs/X_resize.v", "proofs/X_count.v", "proofs/X_range.v", "XMachine.v", "props/C03.v", "proofs/XS_range.v", "XMachineS.v"], cov)
+                                             "proofs/X_lin.v", "proofs/X_resize.v", "proofs/X_count.v", "proofs/X_range.v", "XMachine.v", "props/C03.v", "proofs/XS_range.v", "XMachineS.v",
+                                             "proofs/CX_product2.v", "proofs/CX_mapof2.v", "proofs/CX_map2.v", "proofs/CX_range.v", "proofs/CX_range2.v", "proofs/CX_range3.v", "proofs/CX_range_ex.v", "proofs/CX_rangeS.v", "proofs/CX_rangeS_ex.v", "props/C07X.v"], cov)
+    extra_props(ctx, "props/C07X.v", cov, broken)
     cache_seq_part(ctx, "C07", cov, N(ctx, 1200, 20000), broken)
     table_part(ctx, "C07", cov, N(ctx, 60, 600), [])
     # on the real code, all containers: every traversal of every schedule is checked (lincheck range-check: no key twice, only
@@ -277,8 +279,9 @@ def check_C08():
     # Range visits and the successful loads (lincheck final-state); resizes frozen at every point, writers parked
     from . import solo
     n = N(ctx, 600, 12000)
-    fam = solo.resize_families(ctx.tier, [("Map", None), ("MapOf_int", "const")])
-    sched_part(ctx, "C08", cov, directed=False, extra=[("resize frozen / writer parked / shrink request frozen (directed)", fam)],
+    fam = solo.resize_families(ctx.tier, [("Map", None), ("MapOf_int", "const"), ("Cache", None), ("CacheOf_int", None)])
+    sched_part(ctx, "C08", cov, directed=False, extra=[("resize frozen / writer parked / shrink request frozen (directed)", fam),
+                                                       ("Count right after the caller's own Clear / DeleteExpired while others insert, grow or clean up", count_after_families(ctx))],
                sets=[("Map", n, ["-prefill", "73", "-clear", "30"]), ("MapOf_int", n, ["-hasher", "const", "-prefill", "125", "-clear", "30"]),
                      ("MapOf_str", n, ["-prefill", "121"]), ("MapOf_int", n, ["-threads", "4", "-ops", "4", "-sched", "mix", "-keys", "5"]),
                      ("Cache", n, []), ("CacheOf_int", n, [])])
@@ -297,6 +300,34 @@ def check_C08():
                    "dense sequential cases: Count compared with the physical snapshot taken just before it, with the live entries right after DeleteExpired, with 0 right after Clear, and with the model")
     return ctx.finish(cov, ["the counter theorem is proved for the MapOf machine; the Map machine (same protocol) is tied by step correspondence and searched",
                             "cache level: sequential theorems; interleavings of cache calls are searched (final-state check)"])
+
+def count_after_families(ctx):
+    """C08's last sentence under concurrency (lincheck count-check): a thread calls Clear (DeleteExpired) and then Count,
+    while another thread's Set pushes the table over its grow threshold / another thread runs a cleanup pass of its own"""
+    import random
+    r = random.Random(ctx.seed * 7 + 3)
+    scen = []
+    NOEXP = -2000000000
+    nrep = N(ctx, 40, 600)
+    for cont, pre in (("Cache", 73), ("CacheOf_int", 121), ("CacheOf_str", 121)):
+        for i in range(nrep):
+            setup = ([{"op": "Set", "k": k, "v": 10 * k + k, "d": NOEXP} for k in (1, 2, 3)] +     # as in solo.gen's grow family
+                     [{"op": "Set", "k": 1000 + j, "v": 5000 + j, "d": NOEXP} for j in range(pre)])
+            scen.append(dict(id="cnt_clear_%s_%d" % (cont, i), container=cont, cb=False, setup=setup,
+                             threads=[[{"op": "Clear"}, {"op": "Count"}],
+                                      [{"op": "Set", "k": 9, "v": 109, "d": NOEXP}] +     # key 9 on this prefill: the insert that grows the table
+                                      [{"op": "Set", "k": 10 * (1 + i % 7) + j, "v": 11 + j, "d": NOEXP} for j in (1, 2, 3)],
+                                      [{"op": "GetOrCompute", "k": 10 * (1 + i % 7) + 5, "v": 13, "d": NOEXP}, {"op": "Set", "k": 10 * (1 + i % 7) + 6, "v": 16, "d": NOEXP}]],
+                             sched=dict(kind="random", seed=r.getrandbits(62)), max_steps=60000, layout=False))
+            nexp = 6
+            setup2 = ([{"op": "Set", "k": 100 + j, "v": 600 + j, "d": 1000} for j in range(nexp)] + [{"op": "Advance", "dt": 5000}]
+                      + [{"op": "Set", "k": 200 + j, "v": 700 + j, "d": NOEXP} for j in range(3)])
+            scen.append(dict(id="cnt_delexp_%s_%d" % (cont, i), container=cont, cb=(i % 2 == 0), setup=setup2,
+                             threads=[[{"op": "DeleteExpired"}],
+                                      [{"op": "DeleteExpired"}, {"op": "Count"}],
+                                      [{"op": "Set", "k": 4, "v": 14, "d": NOEXP}]],
+                             sched=dict(kind="random", seed=r.getrandbits(62)), max_steps=60000, layout=False))
+    return scen
 
 def check_C15():
     ctx = Ctx("C15"); cov = {}
@@ -468,8 +499,10 @@ def sched_part(ctx, pid, cov, sets, directed=True, extra=()):
 def check_C02():
     ctx = Ctx("C02"); cov = {}
     broken = proof_part(ctx, "props/C02.v", ["proofs/C02_good.v", "proofs/C02_methods.v", "proofs/C02_lin.v", "proofs/C01_sim.v", "proofs/C01_ops.v", "Lin.v", "proofs/CX_trans.v", "proofs/CX_compose.v", "proofs/CX_product.v", "proofs/CX_mapof.v", "proofs/CX_map.v", "proofs/C02_methods_of.v", "proofs/C02_lin_gen.v", "proofs/C02_lin_of.v", "proofs/CX_cacheof.v", "proofs/CX_product2.v", "proofs/CX_mapof2.v", "proofs/CX_map2.v", "proofs/X_linearizable2.v", "proofs/XS_linearizable2.v", "proofs/X_linearizable.v", "proofs/XS_linearizable.v", "XMachine.v", "XMachineS.v", "proofs/SkelDefs.v", "proofs/Skel.v",
-                                             "LinT.v", "ConcT.v", "proofs/LinT_facts.v", "proofs/LinT_tests.v", "proofs/C02T_good.v", "proofs/C02T_methods.v", "proofs/C02T_lin.v", "proofs/C02T_main.v", "proofs/C02T_methods_of.v", "proofs/C02T_ex.v", "props/C02T.v"], cov)
+                                             "LinT.v", "ConcT.v", "proofs/LinT_facts.v", "proofs/LinT_tests.v", "proofs/C02T_good.v", "proofs/C02T_methods.v", "proofs/C02T_lin.v", "proofs/C02T_main.v", "proofs/C02T_methods_of.v", "proofs/C02T_ex.v", "props/C02T.v",
+                                             "proofs/CXT_compose.v", "proofs/CXT_product.v", "proofs/CXT_mapof.v", "proofs/CXT_map.v", "proofs/CXT_ex.v", "props/C02TX.v"], cov)
     extra_props(ctx, "props/C02T.v", cov, broken)
+    extra_props(ctx, "props/C02TX.v", cov, broken)
     n = N(ctx, 2500, 40000)
     sched_part(ctx, "C02", cov, [("Cache", n, []), ("CacheOf_int", n, []), ("CacheOf_str", n // 2, ["-sched", "pct"]),
                                  ("Cache", n // 2, ["-threads", "4", "-ops", "4", "-sched", "mix"])])
@@ -702,7 +735,7 @@ def check_C04():
 
 def check_C03():
     ctx = Ctx("C03"); cov = {}
-    broken = proof_part(ctx, "props/C03.v", ["proofs/C11_table.v", "proofs/C11_lists.v", "proofs/X_maps.v", "proofs/XS_inv.v", "TableModel.v", "XMachineS.v", "proofs/XS_lock.v", "proofs/XS_own.v", "proofs/XS_count.v", "proofs/XS_inst.v", "proofs/XS_cells.v", "proofs/XS_vis.v", "proofs/XS_abs.v", "proofs/XS_cinst.v", "proofs/XS_resize.v", "proofs/XS_rinst.v", "proofs/XS_read.v", "proofs/XS_rdinst.v", "proofs/XS_loadhit.v", "proofs/XS_lhinst.v", "proofs/XS_loadmiss.v", "proofs/XS_lminst.v", "proofs/XS_fn.v", "proofs/XS_size.v", "proofs/XS_range.v", "proofs/LinGen.v", "proofs/XS_stale.v", "proofs/XS_linpoints.v", "proofs/XS_linearizable.v", "proofs/XS_linpoints2.v", "proofs/XS_linearizable2.v", "proofs/XS_term.v", "proofs/X_linpoints.v", "Lin.v"], cov)
+    broken = proof_part(ctx, "props/C03.v", ["proofs/C11_table.v", "proofs/C11_lists.v", "proofs/X_maps.v", "proofs/XS_inv.v", "TableModel.v", "XMachineS.v", "proofs/XS_lock.v", "proofs/XS_own.v", "proofs/XS_count.v", "proofs/XS_inst.v", "proofs/XS_cells.v", "proofs/XS_vis.v", "proofs/XS_abs.v", "proofs/XS_cinst.v", "proofs/XS_resize.v", "proofs/XS_rinst.v", "proofs/XS_read.v", "proofs/XS_rdinst.v", "proofs/XS_loadhit.v", "proofs/XS_lhinst.v", "proofs/XS_loadmiss.v", "proofs/XS_lminst.v", "proofs/XS_fn.v", "proofs/XS_size.v", "proofs/XS_range.v", "proofs/LinGen.v", "proofs/XS_stale.v", "proofs/XS_linpoints.v", "proofs/XS_linearizable.v", "proofs/XS_linpoints2.v", "proofs/XS_linearizable2.v", "proofs/XS_term.v", "proofs/XS_fair.v", "proofs/X_linpoints.v", "Lin.v"], cov)
     n = N(ctx, 2000, 30000)
     from . import solo
     fam = solo.resize_families(ctx.tier, [("Map", None)])
